@@ -54,13 +54,20 @@ static std::map<uintptr_t, size_t> g_maps;
 static std::vector<Fault> g_faults;
 static OpStats g_st;
 static uint64_t g_name_counter = 0;
+static int g_flaky_period[K_NKINDS] = {0, 0, 0};
+static uint64_t g_flaky_count[K_NKINDS] = {0, 0, 0};
+static uint64_t g_flaky_fired = 0;
 
 void enable(bool on) { g_on = on; }
 bool enabled() { return g_on; }
 void reset() {
   g_dirs.clear(); g_execmem = true; g_fds.clear(); g_maps.clear(); g_faults.clear();
   g_st = OpStats(); g_name_counter = 0;
+  for (int k = 0; k < K_NKINDS; k++) { g_flaky_period[k] = 0; g_flaky_count[k] = 0; }
+  g_flaky_fired = 0;
 }
+void set_flaky(int kind, int period) { if (kind >= 0 && kind < K_NKINDS) g_flaky_period[kind] = period; }
+uint64_t flaky_fired() { return g_flaky_fired; }
 void set_dir(const std::string &path, int policy) { g_dirs[path] = policy; }
 void set_execmem(bool allowed) { g_execmem = allowed; }
 void begin_op(const std::vector<Fault> &faults) { g_faults = faults; g_st = OpStats(); }
@@ -75,6 +82,12 @@ std::string open_fd_desc() {
 
 // transient fault for the nth call of `kind` within the current op?
 static int transient(int kind) {
+  if (g_flaky_period[kind] > 0 && (++g_flaky_count[kind] % g_flaky_period[kind]) == 0) {
+    g_flaky_fired++;
+    g_st.fired++;
+    g_st.calls[kind]++;
+    return kind == K_MKSTEMP ? EMFILE : kind == K_FTRUNCATE ? ENOSPC : ENOMEM;
+  }
   int nth = g_st.calls[kind]++;
   for (auto &f : g_faults)
     if (f.kind == kind && f.nth == nth) {
